@@ -45,9 +45,9 @@ def metadata_payload(rng, padding=None):
     out = b""
     n = rng.randrange(1, 20) if rng.random() < 0.85 else rng.choice([252, 253, 254, 255, 256, 300])
     cid = "".join(rng.choice("abcdefghijklmnopqrstuvwxyz:.-0123456789") for _ in range(n))
-    body = tlv(0x01, utf8z(cid))
+    body = tlv(0x01, utf8z(cid), force16=(rng.random() < 0.12))       # now and then with a header longer than it needs to be
     if rng.random() < 0.4:
-        body += tlv(0x02, utf8z("m%d" % rng.randrange(1000)))
+        body += tlv(0x02, utf8z("m%d" % rng.randrange(1000)), force16=(rng.random() < 0.12))
     if rng.random() < 0.4:
         body += tlv(0x03, be(rng.randrange(0, 1 << rng.choice([1, 8, 16, 40, 63]))))
     if rng.random() < 0.3:
